@@ -102,8 +102,8 @@ package ivfwriter
 //@ atcall (io.WriteSeeker).Write assert ghost(wrSeeks) == old(ghost(wrSeeks)) + 1 && len(callarg1) == 4 && callarg1[0] == byte(i.count) && callarg1[1] == byte(i.count >> 8) && callarg1[2] == byte(i.count >> 16) && callarg1[3] == byte(i.count >> 24)
 //@ ensures i.count == old(i.count)
 
-// Keyframe gating (VP8): nothing is written, and the gate stays shut, while no keyframe
-// packet has been seen; the frame counter grows by at most one per packet.
+// Keyframe gating (VP8, VP9): nothing is written, and the gate stays shut, while no keyframe
+// packet has been seen (it opens only on a packet of a keyframe: VP8 P bit clear, VP9 P flag clear); the frame counter grows by at most one per packet.
 //@ func (*IVFWriter).writeVP8
 //@ props C32
 //@ deadreturn 1
@@ -112,6 +112,7 @@ package ivfwriter
 //@ ensures !i.seenKeyFrame ==> ghost(wrWrites) == old(ghost(wrWrites)) && i.count == old(i.count)
 //@ ensures i.count == old(i.count) || (i.count == old(i.count) + 1 && packet.Marker)
 //@ atcall (*IVFWriter).writeFrame assert i.seenKeyFrame && packet.Marker && len(callarg1) > 0
+//@ atreturn assert !old(i.seenKeyFrame) && i.seenKeyFrame ==> isKeyFrame
 
 //@ func (*IVFWriter).writeVP9
 //@ props C32
@@ -121,6 +122,7 @@ package ivfwriter
 //@ ensures !i.seenKeyFrame ==> ghost(wrWrites) == old(ghost(wrWrites)) && i.count == old(i.count)
 //@ ensures i.count == old(i.count) || (i.count == old(i.count) + 1 && packet.Marker)
 //@ atcall (*IVFWriter).writeFrame assert i.seenKeyFrame && packet.Marker && len(callarg1) > 0
+//@ atreturn assert !old(i.seenKeyFrame) && i.seenKeyFrame ==> !vp9Packet.P
 
 // The inverse lemma tying the writer's little-endian fields to the reader's decoding
 // (pkg/media/ivfreader contracts): decode(encode(x)) == x for the 16-, 32- and 64-bit fields.
